@@ -6,7 +6,7 @@ scope = {"kind": "Top"|"Func"|"Method"|"Nested"|"Class", "mod_attrs": None | [at
 site  = {"ctx": <ctx>, "name": identifier used by the template, "lits": [lit], "line": filled in by the renderer}
 lit   = ["Int", radix, [[digit]], upper, suffix] | ["Float", [digit], [digit], None | [neg, [digit]], suffix]
         | ["Bool", b] | ["Str", text] | ["Ident", name]
-radix = "Dec" | "Hex" | "Oct" | "Bin" | "LegacyOct"
+radix = "Dec" | "Hex" | "Oct" | "Bin" | "HexU" | "OctU" | "BinU" (upper-case prefix); exponent = [negative, [digit], upper-case E]
 """
 from __future__ import annotations
 
@@ -14,8 +14,8 @@ from harness.coq import coq_bool, coq_list, coq_string
 
 EXT = {"py": ".py", "ts": ".ts", "js": ".js", "rs": ".rs"}
 COQ_LANG = {"py": "Py", "ts": "Ts", "js": "Ts", "rs": "Rs"}
-BASE = {"Dec": 10, "Hex": 16, "Oct": 8, "Bin": 2, "LegacyOct": 8}
-PREFIX = {"Dec": "", "Hex": "0x", "Oct": "0o", "Bin": "0b", "LegacyOct": "0"}
+BASE = {"Dec": 10, "Hex": 16, "Oct": 8, "Bin": 2, "HexU": 16, "OctU": 8, "BinU": 2}
+PREFIX = {"Dec": "", "Hex": "0x", "Oct": "0o", "Bin": "0b", "HexU": "0X", "OctU": "0O", "BinU": "0B"}
 
 MULTI = {"Arg", "Elts", "UpperTuple", "TsEnum", "DictKeys", "Range", "Decorator", "Nested", "Macro"}
 CTXS = {
@@ -61,7 +61,7 @@ def lit_text(lang: str, lit) -> str:
         if fp:
             s += "." + "".join(map(str, fp))
         if ex is not None:
-            s += "e" + ("-" if ex[0] else "") + "".join(map(str, ex[1]))
+            s += ("E" if len(ex) > 2 and ex[2] else "e") + ("-" if ex[0] else "") + "".join(map(str, ex[1]))
         return s + suffix
     if k == "Bool":
         return ("True" if lit[1] else "False") if lang == "py" else ("true" if lit[1] else "false")
@@ -257,7 +257,7 @@ def coq_lit(lit) -> str:
     if k == "Int":
         return f"(LInt R{lit[1]} {coq_list([coq_nats(g) for g in lit[2]])} {coq_bool(lit[3])} {coq_string(lit[4])})"
     if k == "Float":
-        ex = "None" if lit[3] is None else f"(Some ({coq_bool(lit[3][0])}, {coq_nats(lit[3][1])}))"
+        ex = "None" if lit[3] is None else f"(Some (({coq_bool(lit[3][0])}, {coq_bool(len(lit[3]) > 2 and lit[3][2])}), {coq_nats(lit[3][1])}))"
         return f"(LFloat {coq_nats(lit[1])} {coq_nats(lit[2])} {ex} {coq_string(lit[4])})"
     if k == "Bool":
         return f"(LBool {coq_bool(lit[1])})"
